@@ -214,3 +214,101 @@ async def main():
 bad = asyncio.run(main())
 VIOLATED = bool(bad); DETAIL = repr(bad)
 '''
+
+
+classmodel("OffsetCommitResponse", {"topics": List(Tup(STR, List(Tup(INT, INT))))})
+
+
+@contract(MOD + ":GroupCoordinator._do_commit_offsets", ["C06", "C19", "C04"], variant="what-a-commit-error-does-to-the-membership")
+def _(c):
+    """C06 "the member does not disturb its own membership": as for heartbeats (_do_heartbeat), each change of the member's
+    group state needs the error code that calls for it. REBALANCE_IN_PROGRESS asks for a rejoin and leaves the member's
+    generation and id alone - it is still a member, and a stop() whose final commit meets a rebalance still has to say
+    LeaveGroup (C19 "a consumer that could reach its coordinator has left the group": _maybe_leave_group needs the
+    generation); only UNKNOWN_MEMBER_ID / ILLEGAL_GENERATION drop the identity"""
+    from .common import tp_ctor
+    c.self_("GroupCoordinator")
+    c.param("assignment", Ref("Assignment"))
+    c.param("offsets", OFFSETS)
+    c.no_class_inv = True
+    c.none_raises = True
+    c.bind("TopicPartition", tp_ctor)
+    c.local("response", Ref("OffsetCommitResponse"))
+    c.local("errored", Dict(TP, EXC))
+    c.local("unauthorized_topics", Set(STR))
+    c.fragment("for topic, partitions in response.topics", requires=[])
+    c.call("self.coordinator_dead", modifies=["self_.coordinator_id", "Future.state", "Future.nres"], note="marks the coordinator unknown")
+    c.call("self.request_rejoin", modifies=["Future.state", "Future.nres"], note="GroupCoordinator.request_rejoin (under contract)")
+    c.call("self.reset_generation", modifies=["self_.generation", "self_.member_id", "Future.state", "Future.nres"],
+           note="GroupCoordinator.reset_generation (under contract): forgets generation and member id, requests a rejoin")
+    c.modifies("self.coordinator_id", "self.generation", "self.member_id", "Future.state", "Future.nres")
+    c.raises("answer-for-a-partition-that-was-not-committed", "KeyError")
+    c.loop(0, header="for topic, partitions in response.topics", invariants=[])
+    c.loop(1, header="for partition, error_code in partitions", invariants=[])
+    c.hook("before", "self.coordinator_dead", [
+        ("assert", "coordinator-dropped-only-when-the-broker-says-so",
+         "error_type == Errors.GroupCoordinatorNotAvailableError or error_type == Errors.NotCoordinatorForGroupError"
+         " or error_type == Errors.RequestTimedOutError"),
+    ])
+    c.hook("before", "self.request_rejoin", [
+        ("assert", "rejoin-requested-only-when-the-group-is-rebalancing", "error_type == Errors.RebalanceInProgressError"),
+    ])
+    c.hook("before", "self.reset_generation", [
+        ("assert", "identity-dropped-only-when-the-broker-rejects-it",
+         "error_type == Errors.IllegalGenerationError or error_type == Errors.UnknownMemberIdError"),
+    ])
+
+
+# replay: the real _do_commit_offsets of a real GroupCoordinator object with a stubbed _send_req answering each error code
+_COMMIT_ERR_SCRIPT = '''
+import asyncio, logging, types
+logging.disable(logging.CRITICAL)
+from aiokafka.consumer.group_coordinator import GroupCoordinator
+from aiokafka.consumer.subscription_state import SubscriptionState
+from aiokafka.structs import TopicPartition, OffsetAndMetadata
+from aiokafka.util import create_future
+from aiokafka import errors as E
+
+async def one(code):
+    coord = GroupCoordinator.__new__(GroupCoordinator)
+    subs = SubscriptionState()
+    tp = TopicPartition("t", 0)
+    subs.assign_from_user({tp})
+    coord._subscription = subs
+    coord.group_id, coord.generation, coord.member_id, coord.coordinator_id = "g", 5, "member-1", 1
+    coord._coordinator_dead_fut = create_future()
+    coord._rejoin_needed_fut = create_future()
+    async def send_req(request):
+        return types.SimpleNamespace(topics=[("t", [(0, code)])])
+    coord._send_req = send_req
+    try:
+        await coord._do_commit_offsets(subs.subscription.assignment, {tp: OffsetAndMetadata(3, "")})
+    except Exception:
+        pass
+    return coord.generation, coord.member_id, coord.coordinator_id, coord._rejoin_needed_fut.done()
+
+async def main():
+    bad = []
+    for code, name in ((27, "REBALANCE_IN_PROGRESS"), (25, "UNKNOWN_MEMBER_ID"), (22, "ILLEGAL_GENERATION"), (16, "NOT_COORDINATOR"),
+                       (14, "COORDINATOR_LOAD_IN_PROGRESS"), (0, "NONE"), (12, "OFFSET_METADATA_TOO_LARGE")):
+        gen, mid, cid, rejoin = await one(code)
+        identity_kept = (gen, mid) == (5, "member-1")
+        if code in (25, 22):
+            if identity_kept or not rejoin:
+                bad.append("%s: the member keeps an identity the broker rejected (generation %r, member %r, rejoin %s)" % (name, gen, mid, rejoin))
+        else:
+            if not identity_kept:
+                bad.append("%s on OffsetCommit wiped the member's generation/id (%r, %r): it is still a member; close() would skip LeaveGroup" % (name, gen, mid))
+            if code == 27 and not rejoin:
+                bad.append("%s: no rejoin requested" % name)
+            if code != 27 and rejoin:
+                bad.append("%s: a rejoin was requested" % name)
+        if (cid is None) != (code == 16):
+            bad.append("%s: coordinator_id afterwards %r" % (name, cid))
+    return bad
+bad = asyncio.run(main())
+VIOLATED = bool(bad); DETAIL = "; ".join(bad[:3])
+'''
+from pyvc.contract import REGISTRY as _R2
+_R2[MOD + ":GroupCoordinator._do_commit_offsets#what-a-commit-error-does-to-the-membership"].replay_fn = \
+    lambda model, ob=None: {"script": _COMMIT_ERR_SCRIPT}
